@@ -2,6 +2,7 @@ package query
 
 import (
 	"context"
+	"reflect"
 	"strings"
 	"sync/atomic"
 
@@ -245,7 +246,9 @@ func selectSet(ctx context.Context, scope *ReferenceScope, set parser.SelectSet,
 		return nil, err
 	}
 
-	if scope.RecursiveTable != nil {
+	// The recursion of a recursive table is the outermost set operation of the table's query. Any other set
+	// operation in that query (in the first operand, in a subquery, in an inner WITH clause) is an ordinary one.
+	if scope.RecursiveTable != nil && reflect.DeepEqual(scope.RecursiveTable.Query.SelectEntity, parser.QueryExpression(set)) {
 		scope.RecursiveTmpView = nil
 		err := selectSetForRecursion(ctx, scope, lview, set, forUpdate)
 		if err != nil {
